@@ -400,6 +400,51 @@ def build_converse(R, rng):
         add("qslst(blur,restore_fft,restore_matrix)", f"{H}x{W}:psf1x1", g)
     add("build_psf_gaussian", "radius0", lambda: Q.build_psf_gaussian(0, 1.0))
     add("build_psf_motion", "length1", lambda: Q.build_psf_motion(1, 30.0))
+    # ---- in-domain arguments in the FORMS a caller may hold them in: numpy integers / floats / strings for option values, keyword
+    # instead of positional, lists that numpy converts, read-only views - none of these may be rejected
+    import math
+    A43, A33 = refq.randq(rng, 4, 3), refq.randq(rng, 3, 3)
+    H3 = _herm(rng, 3)
+    T234 = quaternion.as_quat_array(rng.standard_normal((2, 3, 4, 4)))
+    for md in (0, 1, 2):
+        for ty in (np.int64, np.int32, np.intp, np.uint8):
+            add("tensor_unfold", f"form:mode={ty.__name__}({md})", lambda md=md, ty=ty: T.tensor_unfold(T234, ty(md)))
+            add("tensor_fold", f"form:mode={ty.__name__}({md})", lambda md=md, ty=ty: T.tensor_fold(T.tensor_unfold(T234, md), ty(md), (2, 3, 4)))
+        add("tensor_unfold", f"form:mode_keyword({md})", lambda md=md: T.tensor_unfold(T234, mode=md))
+        add("tensor_fold", f"form:shape_as_list({md})", lambda md=md: T.tensor_fold(T.tensor_unfold(T234, md), md, [2, 3, 4]))
+        add("tensor_fold", f"form:shape_numpy_ints({md})", lambda md=md: T.tensor_fold(T.tensor_unfold(T234, md), md, tuple(np.int64(x) for x in (2, 3, 4))))
+    for lab, o in (("np.int64(1)", np.int64(1)), ("np.int32(2)", np.int32(2)), ("1.0", 1.0), ("np.float64(2)", np.float64(2.0)),
+                   ("float('inf')", float("inf")), ("math.inf", math.inf), ("np.float64(inf)", np.float64("inf")), ("np.float32(inf)", np.float32("inf")),
+                   ("np.str_('fro')", np.str_("fro")), ("np.str_('inf')", np.str_("inf")), ("ord_keyword", None)):
+        if lab == "ord_keyword":
+            add("matrix_norm", "form:ord_keyword", lambda: U.matrix_norm(A43, ord=1))
+        else:
+            add("matrix_norm", "form:ord=" + lab, lambda o=o: U.matrix_norm(A43, o))
+    for ty in (np.int64, np.int32, np.intp, np.uint8):
+        add("classical_qsvd", f"form:R={ty.__name__}", lambda ty=ty: D.classical_qsvd(A43, ty(2)))
+        add("rand_qsvd", f"form:R={ty.__name__}", lambda ty=ty: R.qsvd.rand_qsvd(A43, ty(2), oversample=ty(1), n_iter=ty(1)))
+        add("pass_eff_qsvd", f"form:R={ty.__name__}", lambda ty=ty: R.qsvd.pass_eff_qsvd(A43, ty(2), oversample=ty(1), n_passes=ty(2)))
+        add("quat_eye", f"form:n={ty.__name__}", lambda ty=ty: U.quat_eye(ty(3)))
+        add("power_iteration", f"form:max_iterations={ty.__name__}", lambda ty=ty: U.power_iteration(H3, max_iterations=ty(20)))
+        add("NewtonSchulzPseudoinverse", f"form:max_iter={ty.__name__}", lambda ty=ty: S.NewtonSchulzPseudoinverse(max_iter=ty(3)).compute(A43))
+        add("QGMRESSolver", f"form:max_iter={ty.__name__}", lambda ty=ty: S.QGMRESSolver(max_iter=ty(2)).solve(A33, refq.randq(rng, 3, 1)))
+        add("RSP", f"form:block_size={ty.__name__}", lambda ty=ty: S.RandomizedSketchProjectPseudoinverse(block_size=ty(2), max_iter=ty(3), seed=ty(1)).compute(A43))
+        add("build_psf_gaussian", f"form:radius={ty.__name__}", lambda ty=ty: Q.build_psf_gaussian(ty(1), 1.0))
+        add("build_psf_motion", f"form:length={ty.__name__}", lambda ty=ty: Q.build_psf_motion(ty(3), 30.0))
+        for name in ("quaternion_schur", "quaternion_schur_unified"):
+            add(name, f"form:max_iter={ty.__name__}", lambda ty=ty, name=name: getattr(SC, name)(A33, max_iter=ty(5)))
+    for sd in ("right", "left"):
+        add("quat_null_space", f"form:side=np.str_({sd})", lambda sd=sd: U.quat_null_space(A43, side=np.str_(sd)))
+        add("quat_kernel", f"form:side_keyword({sd})", lambda sd=sd: U.quat_kernel(A43, side=sd))
+    for dt in ("Dieudonne", "Dieudonné", "Moore"):
+        add("det", f"form:type=np.str_({dt})", lambda dt=dt: U.det(H3, np.str_(dt)))
+    add("det", "form:keyword", lambda: U.det(X=H3, d="Moore"))
+    for lm in (1, np.float64(0.5), np.float32(0.25), np.int64(2)):
+        add("qslst_restore_fft", f"form:lam={type(lm).__name__}", lambda lm=lm: Q.qslst_restore_fft(rng.standard_normal((4, 3, 4)), np.ones((3, 3)) / 9.0, lm))
+    add("apply_blur_fft", "form:psf_integer_dtype", lambda: Q.apply_blur_fft(rng.standard_normal((4, 4, 4)), np.array([[1, 2, 1], [2, 4, 2], [1, 2, 1]])))
+    add("apply_blur_fft", "form:psf_as_list", lambda: Q.apply_blur_fft(rng.standard_normal((4, 4, 4)), np.asarray([[0.25, 0.5, 0.25]])))
+    add("quaternion_lu", "form:return_p_numpy_bool", lambda: D.quaternion_lu(A33, return_p=np.bool_(True)))
+    add("quaternion_lu", "form:return_p_positional", lambda: D.quaternion_lu(A33, True))
     return out
 
 
